@@ -1807,6 +1807,8 @@ class Interp:
     def bi_list(self, it, ca):
         if not ca.args:
             return self.new_list(())
+        if hasattr(ca.args[0], 'as_list'):
+            return ca.args[0].as_list(self)
         seq = self.iter_seq(ca.args[0])
         return self.new_list(seq)
 
